@@ -370,8 +370,11 @@ def run_check(prop_id: str, tier: str, seed: int, jobs: Optional[int] = None) ->
         "violations": len(new_keys),
         "verdict": {0: "held-on-explored", 1: "violated", 2: "inconclusive"}[exit_code],
     }
-    os.makedirs(os.path.join(HERE, "evidence"), exist_ok=True)
-    with open(os.path.join(HERE, "evidence", f"{prop_id}.json"), "w") as f:
+    # evidence that counts is only ever written for /repo itself; runs against a scratch copy carrying a
+    # seeded mutation (VERIF_REPO=...) go to a git-ignored side directory
+    ev_dir = "evidence" if os.path.realpath(os.environ.get("VERIF_REPO", "/repo")) == "/repo" else "evidence-scratch"
+    os.makedirs(os.path.join(HERE, ev_dir), exist_ok=True)
+    with open(os.path.join(HERE, ev_dir, f"{prop_id}.json"), "w") as f:
         json.dump(ev, f, indent=1, sort_keys=True)
         f.write("\n")
 
